@@ -11,7 +11,7 @@ RULE = (
 ASSUMPTIONS = ["hashlib (OpenSSL) is the reference for the primitives; RIPEMD-160 cross-checked against a pure-Python implementation; HMAC written out from RFC 2104"]
 NSHARDS = {"quick": 16, "thorough": 32}
 BUDGET_S = {"quick": 200, "thorough": 1500}
-MIN_HITS = {"quick": {"hash": 1800, "hmac": 1000, "pbkdf2": 60, "chunks": 1500, "mnemonic": 3}, "thorough": {"hash": 4200, "hmac": 10000, "pbkdf2": 400, "chunks": 10000, "mnemonic": 10}}
+MIN_HITS = {"quick": {"hash": 1800, "hmac": 1000, "pbkdf2": 60, "chunks": 1500, "mnemonic": 3, "reuse": 60}, "thorough": {"hash": 4200, "hmac": 10000, "pbkdf2": 400, "chunks": 10000, "mnemonic": 10}}
 FN = ["sha1", "sha256", "sha256d", "sha512", "ripemd160", "hash160"]
 
 
@@ -25,7 +25,7 @@ def cases(ctx):
     S, N = ctx.shard, ctx.nshards
     t = ctx.tier == "thorough"
     k = 0
-    maxlen = 700 if t else 300
+    maxlen = 2000 if t else 300
     for L in range(maxlen + 1):
         k += 1
         if k % N != S:
@@ -36,7 +36,7 @@ def cases(ctx):
     if S == 0:
         ctx.exhaustive.append("every message length 0..%d for each of the six hashes" % maxlen)
     klens = [0, 1, 63, 64, 65, 127, 128, 129, 300]
-    mlens = [0, 1, 55, 56, 63, 64, 65, 111, 112, 127, 128, 129, 300] + [r.randrange(0, 600) for _ in range(30 if t else 12)]
+    mlens = [0, 1, 55, 56, 63, 64, 65, 111, 112, 127, 128, 129, 300] + [r.randrange(0, 600) for _ in range(150 if t else 12)]
     for kl in klens:
         for ml in mlens:
             k += 1
@@ -45,7 +45,7 @@ def cases(ctx):
             key, m = gen.rbytes(r, kl).hex(), gen.rbytes(r, ml).hex()
             for fn in FN:
                 yield {"k": "hmac", "fn": fn, "key": key, "msg": m}
-    rounds = [1, 2, 3, 10, 1000] + ([2048] if t else [])
+    rounds = [1, 2, 3, 10, 1000] + ([2048, 4096, 5] if t else [])
     for fn in ("sha1", "sha256", "sha512"):
         for rd in rounds:
             for ol in [1, 19, 20, 21, 32, 33, 64, 65, 100, 200]:
@@ -70,7 +70,17 @@ def cases(ctx):
             yield {"k": "chunks", "kind": kind, "chunks": [m.hex()], "reverse": bool(L & 1)}
     if S == 0:
         ctx.exhaustive.append("all two-way splits of one random input of every length 0..%d through Sha256d/Sha256r/Hash160 adapters" % (130 if t else 70))
-    for _ in range(300 if t else 20):
+    # the same adapter object reused after finalize_reset / reset (the signers reuse their digest objects)
+    for L in [0, 1, 31, 32, 55, 56, 63, 64, 65, 100] + [r.randrange(0, 300) for _ in range(40 if t else 4)]:
+        k += 1
+        if k % N != S and not t:
+            continue
+        m = gen.rbytes(r, L)
+        cut = r.randrange(L + 1)
+        for kind in kinds[:3]:
+            for rev in (False, True):
+                yield {"k": "chunks", "kind": kind, "chunks": [m[:cut].hex(), m[cut:].hex()], "reverse": rev, "reuse": True}
+    for _ in range(3000 if t else 20):
         m = gen.rbytes(r, r.choice([64, 65, 127, 128, 129, 200, 1000]))
         cuts = sorted(r.randrange(len(m) + 1) for _ in range(r.choice([2, 3, 5, 9])))
         parts = [m[a:b].hex() for a, b in zip([0] + cuts, cuts + [len(m)])]
@@ -116,13 +126,24 @@ def judge(ctx, case):
         m = b"".join(parts)
         if m:
             ctx.nontrivial()
-        r = ctx.call({"op": "digest_chunks", "kind": case["kind"], "chunks": case["chunks"], "reverse": case["reverse"]})
+        r = ctx.call({"op": "digest_chunks", "kind": case["kind"], "chunks": case["chunks"], "reverse": case["reverse"], "reuse": case.get("reuse", False)})
         ctx.ev()
         fn = {"sha256d": hashes.sha256d, "sha256r": hashes.sha256, "hash160": hashes.hash160, "signing_sha256": hashes.sha256, "signing_sha256d": hashes.sha256d}[case["kind"]]
         exp = fn(m)
         if case["reverse"]:
             exp = exp[::-1]
             ctx.hit("reversed")
+        if case.get("reuse"):
+            ctx.hit("reuse")
+            outs = r.get("ok")
+            if not isinstance(outs, list) or len(outs) != 3:
+                ctx.viol("streaming adapter %s could not be reused" % case["kind"], {"resp": str(r)[:200]})
+                return
+            for i, (o, what) in enumerate(zip(outs, ("first use", "second use after finalize_reset", "use after an explicit reset"))):
+                ctx.ev()
+                if o != exp.hex():
+                    ctx.viol("streaming adapter %s (%s output) gives a different digest on its %s" % (case["kind"], "reversed" if case["reverse"] else "plain", what), {"got": o, "exp": exp.hex()})
+            return
         if r.get("ok") != exp.hex():
             ctx.viol("streaming adapter %s (%s output) differs from the one-shot reference for a %d-way chunking" % (case["kind"], "reversed" if case["reverse"] else "plain", min(len(parts), 3)), {"got": str(r.get("ok", r.get("panic")))[:200], "exp": exp.hex()})
     elif k == "mnemonic":
